@@ -323,6 +323,204 @@ func stripMain(path string, execEvery int) {
 	enc.Encode(map[string]interface{}{"done": true, "n": n, "bad": bad, "drift": drift, "executed": execd, "specbad": specbad})
 }
 
+// ---------------------------------------------------------------- C05: printer round trip
+
+type GenMod struct {
+	Mem     string `json:"mem"`
+	Table   string `json:"table"`
+	Globals string `json:"globals"`
+	Data    string `json:"data"`
+	Imports string `json:"imports"`
+	Exports string `json:"exports"`
+	Start   bool   `json:"start"`
+	Elem    string `json:"elem"`
+	Body    string `json:"body"`
+}
+
+func renderGen(g *GenMod) string {
+	var sb strings.Builder
+	sb.WriteString("(module $gen\n")
+	switch g.Imports {
+	case "func-named":
+		sb.WriteString("\t(import \"env\" \"put\" (func $put (param $x i32) (param $y i64)))\n")
+	case "func-anon":
+		sb.WriteString("\t(import \"env\" \"put\" (func $put (param i32) (param i64)))\n")
+	case "func+global":
+		sb.WriteString("\t(import \"env\" \"put\" (func $put (param $x i32) (param $y i64)))\n\t(import \"env\" \"base\" (global $base i32))\n")
+	}
+	if g.Mem != "none" {
+		fmt.Fprintf(&sb, "\t(memory $memory %s)\n", g.Mem)
+	}
+	if g.Table != "none" {
+		fmt.Fprintf(&sb, "\t(table %s funcref)\n", g.Table)
+	}
+	sb.WriteString("\t(type $bin (func (param i32 i32) (result i32)))\n")
+	switch g.Globals {
+	case "const-i32":
+		sb.WriteString("\t(global $k i32 (i32.const -7))\n")
+	case "mut-i64+const-i32":
+		sb.WriteString("\t(global $acc (mut i64) (i64.const 9223372036854775807))\n\t(global $k i32 (i32.const 42))\n")
+	}
+	exp := func(name string) string {
+		if g.Exports == "inline" || g.Exports == "memory+global" {
+			return fmt.Sprintf(" (export \"%s\")", name)
+		}
+		return ""
+	}
+	switch g.Body {
+	case "arith":
+		fmt.Fprintf(&sb, "\t(func $f%s (param $a i32) (param $b i32) (result i32)\n\t\tlocal.get $a\n\t\tlocal.get $b\n\t\ti32.add\n\t\ti32.const -129\n\t\ti32.xor\n\t)\n", exp("f"))
+	case "control":
+		fmt.Fprintf(&sb, "\t(func $f%s (param $a i32) (param $b i32) (result i32)\n\t\tblock $out (result i32)\n\t\t\tloop $again\n\t\t\t\tlocal.get $a\n\t\t\t\ti32.eqz\n\t\t\t\tif\n\t\t\t\t\tlocal.get $b\n\t\t\t\t\tbr $out\n\t\t\t\tend\n\t\t\t\tlocal.get $a\n\t\t\t\ti32.const 1\n\t\t\t\ti32.sub\n\t\t\t\tlocal.set $a\n\t\t\t\tbr $again\n\t\t\tend\n\t\t\ti32.const 0\n\t\tend\n\t)\n", exp("f"))
+	case "locals":
+		fmt.Fprintf(&sb, "\t(func $f%s (param $a i32) (param $b i32) (result i32)\n\t\t(local $t i64)\n\t\t(local $u i32)\n\t\tlocal.get $a\n\t\ti64.extend_i32_s\n\t\tlocal.set $t\n\t\tlocal.get $t\n\t\ti32.wrap_i64\n\t\tlocal.tee $u\n\t\tlocal.get $b\n\t\ti32.mul\n\t)\n", exp("f"))
+	}
+	fmt.Fprintf(&sb, "\t(func $g%s (result i32)\n\t\ti32.const 3\n\t\ti32.const 4\n\t\tcall $f\n\t)\n", exp("g"))
+	if g.Imports != "none" {
+		sb.WriteString("\t(func $h (param $v i32)\n\t\tlocal.get $v\n\t\ti64.const 5\n\t\tcall $put\n\t)\n")
+	}
+	if g.Start {
+		sb.WriteString("\t(func $init\n\t\ti32.const 1\n\t\tdrop\n\t)\n\t(start $init)\n")
+	}
+	if g.Exports == "standalone" {
+		sb.WriteString("\t(export \"f\" (func $f))\n\t(export \"g\" (func $g))\n")
+	}
+	if g.Exports == "memory+global" {
+		sb.WriteString("\t(export \"memory\" (memory $memory))\n\t(export \"k\" (global $k))\n")
+	}
+	if g.Elem == "one" {
+		sb.WriteString("\t(elem (i32.const 0) $f)\n")
+	}
+	switch g.Data {
+	case "one":
+		sb.WriteString("\t(data (i32.const 8) \"hi\\00\\ff\\n\")\n")
+	case "two":
+		sb.WriteString("\t(data (i32.const 8) \"abc\")\n\t(data (i32.const 64) \"\\22q\\5c\")\n")
+	}
+	sb.WriteString(")\n")
+	return sb.String()
+}
+
+func safe(f func() ([]byte, error)) (b []byte, err error) {
+	defer func() {
+		if e := recover(); e != nil {
+			err = fmt.Errorf("panic: %v", e)
+		}
+	}()
+	return f()
+}
+
+// roundTrip: Wat2Wasm(print(parse(src))) == Wat2Wasm(src) and print is idempotent
+func roundTrip(name string, src []byte) (fail, detail string) {
+	wasm0, err := safe(func() ([]byte, error) { return watutil.Wat2Wasm(name, src) })
+	if err != nil {
+		return "", "not-a-case: " + err.Error()
+	}
+	printOnce := func(in []byte) ([]byte, error) {
+		return safe(func() ([]byte, error) {
+			m, err := parser.ParseModule(name, in)
+			if err != nil {
+				return nil, err
+			}
+			var buf strings.Builder
+			if err := printer.Fprint(&buf, m); err != nil {
+				return nil, err
+			}
+			return []byte(buf.String()), nil
+		})
+	}
+	p1, err := printOnce(src)
+	if err != nil {
+		return "printer-fails", err.Error()
+	}
+	wasm1, err := safe(func() ([]byte, error) { return watutil.Wat2Wasm(name, p1) })
+	if err != nil {
+		return "printed-text-does-not-assemble", err.Error()
+	}
+	if string(wasm0) != string(wasm1) {
+		return "binary-differs", fmt.Sprintf("%d bytes before, %d after; first difference at byte %d", len(wasm0), len(wasm1), firstDiff(wasm0, wasm1))
+	}
+	p2, err := printOnce(p1)
+	if err != nil {
+		return "printer-fails-on-own-output", err.Error()
+	}
+	if string(p1) != string(p2) {
+		return "not-idempotent", ""
+	}
+	return "", ""
+}
+
+func firstDiff(a, b []byte) int {
+	for i := 0; i < len(a) && i < len(b); i++ {
+		if a[i] != b[i] {
+			return i
+		}
+	}
+	if len(a) < len(b) {
+		return len(a)
+	}
+	return len(b)
+}
+
+func roundtripMain(casesPath string, extra []string) {
+	out := bufio.NewWriter(os.Stdout)
+	defer out.Flush()
+	enc := json.NewEncoder(out)
+	n, bad, notcase := 0, 0, 0
+	report := func(origin string, feat interface{}, src []byte, fail, detail string) {
+		if strings.HasPrefix(detail, "not-a-case") {
+			notcase++
+			if notcase <= 5 {
+				enc.Encode(map[string]interface{}{"notcase": detail, "origin": origin, "features": feat})
+			}
+			return
+		}
+		n++
+		if fail != "" {
+			bad++
+			if bad <= 60 {
+				rec := map[string]interface{}{"fail": fail, "detail": detail, "origin": origin, "features": feat}
+				if len(src) < 3000 {
+					rec["wat"] = string(src)
+				}
+				enc.Encode(rec)
+			}
+		}
+	}
+	if casesPath != "-" {
+		f, err := os.Open(casesPath)
+		if err != nil {
+			fmt.Fprintln(os.Stderr, err)
+			os.Exit(2)
+		}
+		sc := bufio.NewScanner(f)
+		sc.Buffer(make([]byte, 1<<20), 1<<24)
+		for sc.Scan() {
+			js, ok := unescape(sc.Text())
+			if !ok {
+				continue
+			}
+			var g GenMod
+			if err := json.Unmarshal([]byte(js), &g); err != nil {
+				fmt.Fprintln(os.Stderr, err)
+				os.Exit(2)
+			}
+			src := []byte(renderGen(&g))
+			fail, detail := roundTrip("gen.wat", src)
+			report("WatGen", g, src, fail, detail)
+		}
+	}
+	for _, path := range extra {
+		src, err := os.ReadFile(path)
+		if err != nil {
+			continue
+		}
+		fail, detail := roundTrip(path, src)
+		report(path, nil, src, fail, detail)
+	}
+	enc.Encode(map[string]interface{}{"done": true, "n": n, "bad": bad, "notcase": notcase})
+}
+
 func main() {
 	if len(os.Args) < 3 {
 		os.Exit(2)
@@ -334,6 +532,8 @@ func main() {
 			fmt.Sscan(os.Args[3], &every)
 		}
 		stripMain(os.Args[2], every)
+	case "roundtrip":
+		roundtripMain(os.Args[2], os.Args[3:])
 	case "stripfile":
 		data, _ := os.ReadFile(os.Args[2])
 		out, err := watstrip.WatStrip(os.Args[2], data)
